@@ -807,7 +807,10 @@ def material_balance(chemical_IDs, variable_inlets, constant_inlets=(),
     if not variable_inlets:
         raise ValueError('variable_inlets must contain at least one stream')
     index = variable_inlets[0].chemicals.get_index(chemical_IDs)
-    mol_out = sum([s.mol for s in constant_outlets]).to_array()
+    if constant_outlets:
+        mol_out = sum([s.mol for s in constant_outlets]).to_array()
+    else:
+        mol_out = np.zeros(variable_inlets[0].chemicals.size)
     inlet_mols = np.array([s.mol.to_array() for s in variable_inlets]).transpose()
     if balance == 'flow':
         # Perform the following calculation: Ax = b = f - g
